@@ -15,6 +15,8 @@ pub const DRAIN_LIMIT: usize = 4096;
 
 #[derive(Clone, Debug)]
 pub struct StreamRec {
+    /// the library panicked while the container was pulling from this stream
+    pub aborted: bool,
     pub trusted: bool,
     pub fallible: bool,
     /// hint read before each pull (index = items yielded so far) and once after exhaustion
@@ -57,13 +59,34 @@ pub fn sim_log_take() -> SimLog {
     SIM_LOG.with(|l| std::mem::take(&mut *l.borrow_mut()))
 }
 
+/// if a pull panics, the unwinding guard still records that a stream had been handed over
+struct AbortGuard {
+    trusted: bool,
+    fallible: bool,
+    armed: bool,
+}
+
+impl Drop for AbortGuard {
+    fn drop(&mut self) {
+        if self.armed {
+            let (trusted, fallible) = (self.trusted, self.fallible);
+            let _ = SIM_LOG.try_with(|l| {
+                if let Ok(mut l) = l.try_borrow_mut() {
+                    l.streams.push(StreamRec { aborted: true, trusted, fallible, hints: vec![], items: vec![], capped: false });
+                }
+            });
+        }
+    }
+}
+
 fn interrogate<I: Iterator>(mut iter: I, trusted: bool, fallible: bool) -> (Vec<I::Item>, usize)
 where
     I::Item: Obsable,
 {
+    let mut guard = AbortGuard { trusted, fallible, armed: true };
     let first = iter.size_hint();
     let cap = first.1.unwrap_or(DRAIN_LIMIT).min(DRAIN_LIMIT).saturating_add(16);
-    let mut rec = StreamRec { trusted, fallible, hints: vec![], items: vec![], capped: false };
+    let mut rec = StreamRec { aborted: false, trusted, fallible, hints: vec![], items: vec![], capped: false };
     let mut out = Vec::new();
     loop {
         rec.hints.push(iter.size_hint());
@@ -79,6 +102,7 @@ where
             None => break,
         }
     }
+    guard.armed = false;
     let idx = SIM_LOG.with(|l| {
         let mut l = l.borrow_mut();
         l.streams.push(rec);
@@ -309,16 +333,15 @@ impl<T: Clone + Obsable> UninitVec<T> for PlainUninit<T> {
     unsafe fn assume_init(self) -> PlainVec<T> {
         PlainVec { items: self.0.slots.into_iter().flatten().collect() }
     }
-
-    unsafe fn uset(&mut self, idx: usize, v: T) {
-        unsafe { UninitVec::uset(&mut self.0, idx, v) }
-    }
+    // `uset` is deliberately NOT provided: like the Polars back end, this container keeps the
+    // trait's default (`unimplemented!`), i.e. it cannot be written by position through the
+    // owned buffer - only through `uninit_ref_mut`.
 }
 
 impl<T: Clone + Obsable> Vec1<T> for PlainVec<T> {
     type Uninit = PlainUninit<T>;
     type UninitRefMut<'a>
-        = SimBuf<'a, T>
+        = NoSetBuf<'a, T>
     where
         T: 'a;
 
@@ -338,7 +361,24 @@ impl<T: Clone + Obsable> Vec1<T> for PlainVec<T> {
         PlainUninit(SimUninit::new(len))
     }
 
-    fn uninit_ref_mut(uninit_vec: &mut PlainUninit<T>) -> SimBuf<'_, T> {
-        SimBuf { u: &mut uninit_vec.0 }
+    fn uninit_ref_mut(uninit_vec: &mut PlainUninit<T>) -> NoSetBuf<'_, T> {
+        NoSetBuf { u: &mut uninit_vec.0 }
+    }
+}
+
+/// like the Polars back end, this container cannot be written by position
+pub struct NoSetBuf<'a, T> {
+    pub u: &'a mut SimUninit<T>,
+}
+
+impl<T> GetLen for NoSetBuf<'_, T> {
+    fn len(&self) -> usize {
+        self.u.slots.len()
+    }
+}
+
+impl<T> UninitRefMut<T> for NoSetBuf<'_, T> {
+    unsafe fn uset(&mut self, _idx: usize, _v: T) {
+        unimplemented!("plainvec does not support set in given index")
     }
 }
